@@ -62,7 +62,9 @@ func sameValue(a, b interface{}) bool {
 
 func indexDefOf(m bson.D) (string, ref.MIndex) {
 	def := ref.MIndex{Key: asD(getD(m, "keys")), Unique: asB(getD(m, "unique"))}
-	if p := optD(m, "partial"); p != nil {
+	if p := optD(m, "partial"); len(p) > 0 {
+		// lungo treats the empty filter like no filter (also when it compares
+		// definitions)
 		def.Partial = p
 	}
 	if v := getD(m, "ttl"); v != nil {
